@@ -36,6 +36,7 @@ CONFIG["properties_files"] = CONFIG["properties_files"] + ["theories/Nfs40/Prope
 CONFIG["harnesses"] = CONFIG["harnesses"] + [dict(_n40["harness"], shared=True, coq_dirs=["theories/Nfs40"])]
 CONFIG["trusted_base"] = CONFIG.get("trusted_base", []) + (_n40["trusted_base"] if isinstance(_n40["trusted_base"], list) else [_n40["trusted_base"]])
 CONFIG["assumptions"] = CONFIG.get("assumptions", []) + (_n40["assumptions"] if isinstance(_n40["assumptions"], list) else [_n40["assumptions"]])
+CONFIG["required_theorems"] = CONFIG.get("required_theorems", []) + _n40.get("required_theorems", {}).get("C18", [])
 
 # ---- merged by the coordinator: second proof pass of Nfs41 (docs/areas/Nfs41-proofs2.md)
 CONFIG["coq_targets"] = CONFIG["coq_targets"] + ['theories/Nfs41/Properties2.vo', 'theories/Nfs41/Properties2Mon.vo']
